@@ -23,11 +23,60 @@ ASSUMPTIONS = [
 ]
 
 
+_REC = []  # (kind, block, factors...) recorded by the LAPACK contract stubs of the current path
+
+
 def setup_symbolic(case):
     from symx import stubs
     import tenpy.linalg.truncation as T
+    import tenpy.linalg.np_conserved as npc
     stubs.install_blas()
     stubs.facade_for(T)
+    from symx import engine as E
+
+    def svd_stub(a, full_matrices=False, compute_uv=True, overwrite_a=False, check_finite=True, lapack_driver='gesdd'):
+        """contract of LAPACK gesdd: a = U diag(S) V, S >= 0 descending (isometry of U, V is not needed by the claims)"""
+        ctx = E.cur()
+        a = np.asarray(a)
+        m, n = a.shape
+        k = min(m, n)
+        assert not full_matrices
+        U = ctx.fresh_array('U', (m, k), cplx=True)
+        # rank-deficient blocks are inside the claim (S >= 0); only the largest value is assumed positive:
+        # a zero matrix has no Schmidt decomposition to truncate (svd_theta divides by its norm)
+        S = np.array([ctx.fresh('S_0', pos=True)] + [ctx.fresh(f'S_{i}', nonneg=True) for i in range(1, k)], dtype=object)
+        V = ctx.fresh_array('V', (k, n), cplx=True)
+        for i in range(k - 1):
+            ctx.assume(S[i] >= S[i + 1])
+        rec = np.dot(U * S[np.newaxis, :], V)
+        for idx in np.ndindex(m, n):
+            ctx.assume_zero(rec[idx] - a[idx])
+        _REC.append(('svd', a, U, S, V))
+        if compute_uv:
+            return U, S, V
+        return S
+
+    def eigh_stub(a, UPLO='L'):
+        """contract of LAPACK heev for a positive semi-definite matrix: a V = V diag(W), W >= 0 ascending; W = t**2"""
+        ctx = E.cur()
+        a = np.asarray(a)
+        n = a.shape[0]
+        t = ctx.fresh_array('t', (n, ), nonneg=True)
+        W = t * t
+        ctx.assume(W[n - 1] * n >= 1)  # trace >= 1 (harness precondition) => largest eigenvalue >= 1/n
+        V = ctx.fresh_array('V', (n, n), cplx=True)
+        for i in range(n - 1):
+            ctx.assume(t[i] <= t[i + 1])
+        lhs = np.dot(a, V)
+        rhs = V * W[np.newaxis, :]
+        for idx in np.ndindex(n, n):
+            ctx.assume_zero(lhs[idx] - rhs[idx])
+        _REC.append(('eigh', a, W, V))
+        return W, V
+
+    npc.svd_flat = svd_stub
+    npc.anynan = lambda x: False
+    npc.np = stubs.NumpyFacade(widen=True, linalg_overrides={'eigh': eigh_stub})
 
 
 def _log(ctx, x):
@@ -163,8 +212,134 @@ def trunc_error_algebra(ctx):
     ctx.prove_eq([cp.eps, cp.ov], [e1, o1], 'copy')
 
 
+def _theta(ctx, kind, cplx):
+    """matrix to decompose: one block (no charges) or two charge sectors of different shape"""
+    import tenpy.linalg.np_conserved as npc
+    from catalogue import build as Bd
+    if kind in ('2x3', '3x3', '3x2', '2x2'):
+        m, n = int(kind[0]), int(kind[2])
+        return npc.Array.from_ndarray_trivial(ctx.array('t', (m, n), cplx=cplx), labels=['a', 'b'],
+                                              dtype=object if ctx.symbolic else None)
+    ch = Bd.chinfo([1])
+    la = Bd.leg(ctx, 'la', [2, 1], ch, 1, tier='B', concrete_charges=[[0], [1]])
+    lb = Bd.leg(ctx, 'lb', [1, 2], ch, -1, tier='B', concrete_charges=[[0], [1]])
+    return Bd.tensor(ctx, 't', [la, lb], [0], cplx=cplx, labels=['a', 'b'])
+
+
+def svd_theta_case(ctx, kind, chi_max, use_svd_min, cplx):
+    """truncated SVD: reported error, renormalisation and factors (LAPACK per block behind a contract stub)"""
+    import tenpy.linalg.np_conserved as npc
+    from tenpy.linalg.truncation import svd_theta
+    del _REC[:]
+    theta = _theta(ctx, kind, cplx)
+    dense = theta.to_ndarray()
+    if kind[1] == 'x':
+        ctx.assume(ctx.Or(*[x != 0 for x in dense.reshape(-1)]))  # precondition: theta is not the zero matrix
+    else:
+        for blk in theta._data:  # every charge sector non-zero (matches S_0 > 0 of the per-block contract)
+            ctx.assume(ctx.Or(*[x != 0 for x in blk.reshape(-1)]))
+    par = dict(chi_max=chi_max, svd_min=None, trunc_cut=None)
+    if use_svd_min:
+        par['svd_min'] = ctx.real('svd_min', pos=True)
+        ctx.assume(par['svd_min'] > 1.e-100)
+        ctx.assume(par['svd_min'] < 1)
+    U, S, VH, err, renorm = svd_theta(theta, dict(par), inner_labels=['k', 'k*'])
+    K = len(S)
+    ctx.note(f'kept_{K}')
+    # singular values of every block as LAPACK returned them: stub outputs (symbolic) / numpy (concrete)
+    if ctx.symbolic:
+        facs = [(r[2], r[3], r[4]) for r in _REC if r[0] == 'svd']
+    else:
+        blocks = [dense] if kind[1] == 'x' else [dense[:2, :1], dense[2:, 1:]]
+        facs = [np.linalg.svd(b, full_matrices=False) for b in blocks]
+    n2 = sum((s * s for f in facs for s in f[1]), 0. * renorm)
+    ctx.prove_eq(sum((x * x for x in S), 0. * renorm), 1., 'returned S normalised')
+    ctx.prove(renorm > 0, 'renormalization > 0')
+    ctx.prove_eq(err.eps * n2, n2 - renorm * renorm, 'err.eps * |theta|^2 == discarded weight == |theta|^2 - renormalization^2')
+    if chi_max is not None:
+        ctx.prove(K <= chi_max, 'at most chi_max singular values kept')
+    ctx.prove(U.shape[1] == K and VH.shape[0] == K, 'U, VH projected with the same mask as S')
+    U.test_sanity()
+    VH.test_sanity()
+    try:
+        U.get_leg('k').test_contractible(VH.get_leg('k*'))
+    except ValueError as e:
+        ctx.fail('inner legs of truncated U, VH contractible', str(e)[:80])
+    M = npc.tensordot(U.scale_axis(S * renorm, 1), VH, axes=1).to_ndarray()
+    if kind[1] == 'x':
+        # single block: the truncated product keeps exactly the K largest singular triplets
+        Uo, So, Vo = facs[0]
+        # which singular triplets were kept: read off the columns of the projected U (with exact ties among the
+        # singular values either member of the tie may be kept)
+        kept = list(range(K))
+        if ctx.symbolic:
+            Ud = U.to_ndarray()
+            kept = []
+            for c in range(K):
+                for k in range(len(So)):
+                    if k not in kept and all(not (Ud[r, c] - Uo[r, k]).n for r in range(Ud.shape[0])):
+                        kept.append(k)
+                        break
+            ctx.prove(len(kept) == K, 'columns of the truncated U are columns of the LAPACK U')
+        disc = [k for k in range(len(So)) if k not in kept]
+        ref = sum((np.outer(Uo[:, k], Vo[k, :]) * So[k] for k in kept), 0. * dense)
+        ctx.prove_eq(M, ref, 'U S*renormalization VH == sum of the kept singular triplets')
+        ctx.prove_eq(renorm * renorm, sum((So[k] * So[k] for k in kept), 0. * renorm),
+                     'renormalization^2 == sum of kept singular values squared')
+        for k in disc:
+            for j in kept:
+                ctx.prove(So[k] <= So[j], 'no discarded singular value exceeds a kept one')
+    if K == sum(len(f[1]) for f in facs):
+        ctx.prove_eq(M, dense, 'nothing truncated: factors multiply back to theta')
+        ctx.prove_eq(err.eps, 0., 'nothing truncated: eps == 0')
+
+
+def eigh_rho_case(ctx, n, chi_max, cplx):
+    """truncated eigen-decomposition of a (positive) density matrix, LAPACK behind a contract stub"""
+    import tenpy.linalg.np_conserved as npc
+    from tenpy.linalg.truncation import eigh_rho
+    del _REC[:]
+    A = ctx.array('r', (n, n), cplx=cplx)
+    rho_d = np.dot(A, np.conj(A.T))  # positive semi-definite by construction
+    # precondition: a density matrix of trace >= 1 (eigenvalues below 1e-14 are set to zero by eigh_rho)
+    ctx.assume(sum((rho_d[i, i].real for i in range(n)), 0. * rho_d[0, 0].real) >= 1)
+    rho = npc.Array.from_ndarray_trivial(rho_d, labels=['p', 'p*'], dtype=object if ctx.symbolic else None)
+    par = dict(chi_max=chi_max, svd_min=None, trunc_cut=None)
+    W, V, err = eigh_rho(rho, dict(par))
+    K = len(W)
+    if ctx.symbolic:
+        Wo, Vo = [(r[2], r[3]) for r in _REC if r[0] == 'eigh'][0]
+        Wo = np.array([0. * w if bool(w < 1.e-14) else w for w in Wo], dtype=object)  # documented clipping
+    else:
+        Wo, Vo = np.linalg.eigh(rho_d)
+        Wo = np.where(Wo < 1.e-14, 0., Wo)
+    tr = sum(Wo, 0. * Wo[0])
+    ctx.prove_eq(sum(W, 0. * tr), tr, 'returned eigenvalues sum to the trace (renormalised)')
+    if chi_max is not None:
+        ctx.prove(K <= chi_max, 'at most chi_max eigenvalues kept')
+    ctx.prove(V.shape[1] == K, 'V projected with the same mask')
+    kept = list(range(n - K, n))  # ascending LAPACK order: the K largest are the last K
+    for a_, i in enumerate(kept):
+        for b_, j in enumerate(kept):
+            if a_ < b_:
+                ctx.prove_eq(W[a_] * Wo[j], W[b_] * Wo[i], 'returned eigenvalues proportional to the K largest')
+    ctx.prove_eq(err.eps * tr, sum((Wo[i] for i in range(n - K)), 0. * tr), 'err.eps == discarded weight / trace')
+    ctx.note(f'kept_{K}')
+
+
 def CASES(tier, seed):
     cases = [dict(name='TruncationError.algebra', fn='trunc_error_algebra', params={})]
+    kinds = ['2x2', '2x3', '3x2', 'blocks'] + (['3x3'] if tier == 'thorough' else [])
+    for kind in kinds:
+        for chi_max in ((1, 2, None) if kind != '3x3' else (1, 2, 3)):
+            for use_svd_min in (False, True):
+                cases.append(dict(name=f"svd_theta[{kind},chi_max={chi_max},svd_min={use_svd_min}]", fn='svd_theta_case',
+                                  params=dict(kind=kind, chi_max=chi_max, use_svd_min=use_svd_min, cplx=(kind != '3x3')),
+                                  opts=dict(max_paths=20000, max_wall_s=400, validate_paths=3, prove_timeout_ms=20000)))
+    for n in ((2, ) if tier == 'quick' else (2, 3)):
+        for chi_max in (1, 2, None):
+            cases.append(dict(name=f"eigh_rho[n={n},chi_max={chi_max}]", fn='eigh_rho_case', params=dict(n=n, chi_max=chi_max, cplx=(n == 2)),
+                              opts=dict(max_paths=20000, max_wall_s=400, validate_paths=3, prove_timeout_ms=20000)))
     ns = [1, 2, 3] if tier == 'quick' else [1, 2, 3, 4]
     for n in ns:
         chis = [None] + list(range(1, n + 1))
@@ -175,8 +350,10 @@ def CASES(tier, seed):
             pairs = [(a, b) for a in (None, 2, 3) for b in (None, 2, 4)]
         for chi_max, chi_min in pairs:
             for use in itertools.product([False, True], repeat=3):
-                if tier == 'quick' and n == 3 and sum(use) == 3 and (chi_max, chi_min) != (2, None):
+                if tier == 'quick' and n == 3 and sum(use) == 3:
                     continue  # the full option set for n=3 takes minutes per case: thorough tier
+                if tier == 'quick' and n == 3 and use[1] and (chi_max, chi_min) not in ((None, None), (2, 2)):
+                    continue  # trunc_cut makes the queries non-linear (sums of squares): two chi settings in quick
                 if n == 4 and sum(use) == 3 and (chi_max, chi_min) != (2, 2):
                     continue
                 p = dict(n=n, chi_max=chi_max, chi_min=chi_min, use_svd_min=use[0], use_trunc_cut=use[1], use_deg=use[2])
